@@ -15,6 +15,7 @@ package rtmp
 import (
 	"bytes"
 	"encoding/hex"
+	"errors"
 	"fmt"
 	"github.com/q191201771/naza/pkg/nazabytes"
 	"io"
@@ -47,6 +48,16 @@ const (
 	//Amf0TypeMarkerXmlDocument = uint8(0x0f)
 	//Amf0TypeMarkerTypedObject = uint8(0x10)
 )
+
+// Amf0MaxNestingDepth
+//
+// Object, EcmaArray和StrictArray允许的最大嵌套层数（最外层为第1层）。
+// 读取时每嵌套一层都会递归一次，不做限制的话，对端可以用一个全是嵌套容器的消息（每层只需3字节）耗尽协程栈，
+// 栈溢出是fatal error，无法recover，会导致整个进程退出。
+const Amf0MaxNestingDepth = 32
+
+// ErrAmfNestingTooDeep 嵌套层数超过 Amf0MaxNestingDepth
+var ErrAmfNestingTooDeep = errors.New("lal.rtmp: amf0 nesting too deep")
 
 var (
 	// Amf0TypeMarkerObjectEndBytes Amf0TypeMarkerArrayEndBytes:
@@ -284,6 +295,14 @@ func (amf0) ReadUndefinedOrUnsupported(b []byte) (int, error) {
 // @return int: 读取时从 b 消耗的字节大小
 // @return error: ...
 func (amf0) ReadObject(b []byte) (ObjectPairArray, int, error) {
+	return Amf0.readObject(b, 1)
+}
+
+// @param depth: 当前容器所在的嵌套层数，最外层为1
+func (amf0) readObject(b []byte, depth int) (ObjectPairArray, int, error) {
+	if depth > Amf0MaxNestingDepth {
+		return nil, 0, nazaerrors.Wrap(ErrAmfNestingTooDeep)
+	}
 	if len(b) < 1 {
 		return nil, 0, nazaerrors.Wrap(base.ErrAmfTooShort)
 	}
@@ -305,7 +324,7 @@ func (amf0) ReadObject(b []byte) (ObjectPairArray, int, error) {
 		index += l
 
 		var readErr error
-		ops, index, readErr = Amf0.read(b, index, k, ops)
+		ops, index, readErr = Amf0.read(b, index, k, ops, depth)
 		if readErr != nil {
 			return ops, index, readErr
 		}
@@ -316,6 +335,13 @@ func (amf0) ReadObject(b []byte) (ObjectPairArray, int, error) {
 
 // ReadArray Amf0TypeMarkerEcmaArray
 func (amf0) ReadArray(b []byte) (ObjectPairArray, int, error) {
+	return Amf0.readArray(b, 1)
+}
+
+func (amf0) readArray(b []byte, depth int) (ObjectPairArray, int, error) {
+	if depth > Amf0MaxNestingDepth {
+		return nil, 0, nazaerrors.Wrap(ErrAmfNestingTooDeep)
+	}
 	if len(b) < 5 {
 		return nil, 0, nazaerrors.Wrap(base.ErrAmfTooShort)
 	}
@@ -334,7 +360,7 @@ func (amf0) ReadArray(b []byte) (ObjectPairArray, int, error) {
 		index += l
 
 		var readErr error
-		ops, index, readErr = Amf0.read(b, index, k, ops)
+		ops, index, readErr = Amf0.read(b, index, k, ops, depth)
 		if readErr != nil {
 			return ops, index, readErr
 		}
@@ -349,6 +375,13 @@ func (amf0) ReadArray(b []byte) (ObjectPairArray, int, error) {
 }
 
 func (amf0) ReadStrictArray(b []byte) (ObjectPairArray, int, error) {
+	return Amf0.readStrictArray(b, 1)
+}
+
+func (amf0) readStrictArray(b []byte, depth int) (ObjectPairArray, int, error) {
+	if depth > Amf0MaxNestingDepth {
+		return nil, 0, nazaerrors.Wrap(ErrAmfNestingTooDeep)
+	}
 	if len(b) < 5 {
 		return nil, 0, nazaerrors.Wrap(base.ErrAmfTooShort)
 	}
@@ -361,7 +394,7 @@ func (amf0) ReadStrictArray(b []byte) (ObjectPairArray, int, error) {
 	var ops ObjectPairArray
 	for i := 0; i < count; i++ {
 		var readErr error
-		ops, index, readErr = Amf0.read(b, index, "", ops)
+		ops, index, readErr = Amf0.read(b, index, "", ops, depth)
 		if readErr != nil {
 			return ops, index, readErr
 		}
@@ -383,7 +416,8 @@ func (amf0) ReadObjectOrArray(b []byte) (ObjectPairArray, int, error) {
 	return nil, 0, base.NewErrAmfInvalidType(b[0])
 }
 
-func (amf0) read(b []byte, index int, k string, ops ObjectPairArray) (ObjectPairArray, int, error) {
+// @param depth: b[index:]处的值所属容器的嵌套层数
+func (amf0) read(b []byte, index int, k string, ops ObjectPairArray, depth int) (ObjectPairArray, int, error) {
 	if len(b)-index < 1 {
 		return nil, 0, nazaerrors.Wrap(base.ErrAmfTooShort)
 	}
@@ -417,21 +451,21 @@ func (amf0) read(b []byte, index int, k string, ops ObjectPairArray) (ObjectPair
 		}
 		index += l
 	case Amf0TypeMarkerObject:
-		v, l, err := Amf0.ReadObject(b[index:])
+		v, l, err := Amf0.readObject(b[index:], depth+1)
 		if err != nil {
 			return nil, 0, err
 		}
 		ops = append(ops, ObjectPair{k, v})
 		index += l
 	case Amf0TypeMarkerEcmaArray:
-		v, l, err := Amf0.ReadArray(b[index:])
+		v, l, err := Amf0.readArray(b[index:], depth+1)
 		if err != nil {
 			return nil, 0, err
 		}
 		ops = append(ops, ObjectPair{k, v})
 		index += l
 	case Amf0TypeMarkerStrictArray:
-		v, l, err := Amf0.ReadStrictArray(b[index:])
+		v, l, err := Amf0.readStrictArray(b[index:], depth+1)
 		if err != nil {
 			return nil, 0, err
 		}
